@@ -1,5 +1,6 @@
 import MaestroVerif.Model.Expand
 import MaestroVerif.Lemmas.SortLemmas
+import MaestroVerif.Lemmas.ExpandOrder
 
 /-!
 # C11 — Expanding the same specification is repeatable
@@ -57,7 +58,53 @@ theorem C11_perm (u₁ u₂ : List Str) (c : Combo) (step : Str) (h : u₁.Perm 
   ⟨C11_names_order_independent step u₁ u₂ c (fun x => h.mem_iff),
    C11_params_order_independent u₁ u₂ c (fun x => h.mem_iff)⟩
 
-/-! non-vacuity -/
+/-- **Dependency edges do not depend on the iteration order of the parent set.**  The parents of
+an instance are connected one `add_connection` call at a time while a Python `set` is iterated;
+whatever two orders `ord₁`, `ord₂` the set is iterated in (any two permutations of the same
+parents), and from graphs that already agree up to the order inside the dependency sets, the
+two results have the same instance list (submission / status order), the same adjacency table
+(edges, in the same order), the same dependency-table keys and dependency sets with the same
+members - or both runs fail with the same error. -/
+theorem C11_connections_order_independent (ord₁ ord₂ : List Str → List Str) (g₁ g₂ : XG)
+    (ps : List Str) (c : Str) (hrel : Rel g₁ g₂) (hperm : (ord₁ ps).Perm (ord₂ ps)) :
+    RelE (addConnections ord₁ g₁ ps c) (addConnections ord₂ g₂ ps c) := by
+  rw [addConnections_eq, addConnections_eq]
+  exact connect_perm c hperm (a := .ok g₁) (b := .ok g₂) hrel
+
+/-- the same, spelled out for successful runs -/
+theorem C11_edges_order_independent (ord₁ ord₂ : List Str → List Str) (g : XG) (ps : List Str) (c : Str)
+    (hperm : (ord₁ ps).Perm (ord₂ ps)) (r₁ r₂ : XG)
+    (h₁ : addConnections ord₁ g ps c = .ok r₁) (h₂ : addConnections ord₂ g ps c = .ok r₂) :
+    r₁.insts = r₂.insts ∧ r₁.adj = r₂.adj ∧
+      ∀ k x, x ∈ getAssoc r₁.deps k ↔ x ∈ getAssoc r₂.deps k := by
+  have := C11_connections_order_independent ord₁ ord₂ g g ps c (Rel.refl g) hperm
+  rw [h₁, h₂] at this
+  exact ⟨this.insts, this.adj, this.mem⟩
+
+/-- one order fails exactly when the other does -/
+theorem C11_failure_order_independent (ord₁ ord₂ : List Str → List Str) (g : XG) (ps : List Str) (c : Str)
+    (hperm : (ord₁ ps).Perm (ord₂ ps)) (e : Err)
+    (h₁ : addConnections ord₁ g ps c = .error e) : addConnections ord₂ g ps c = .error e := by
+  have := C11_connections_order_independent ord₁ ord₂ g g ps c (Rel.refl g) hperm
+  rw [h₁] at this
+  cases h : addConnections ord₂ g ps c with
+  | ok r => rw [h] at this; exact absurd this (by simp [RelE])
+  | error f => rw [h] at this; simp only [RelE] at this; rw [this]
+
+/-! non-vacuity: connecting `a` then `b`, or `b` then `a`, to `c` gives the same edges; the
+dependency set of `c` is filled in a different order (the relation is not plain equality) -/
+def demoG : XG :=
+  { insts := [], adj := [("a".toList, []), ("b".toList, []), ("c".toList, [])],
+    deps := [("a".toList, []), ("b".toList, []), ("c".toList, [])] }
+
+example : (match addConnections id demoG ["a".toList, "b".toList] "c".toList,
+      addConnections List.reverse demoG ["a".toList, "b".toList] "c".toList with
+    | .ok r₁, .ok r₂ => r₁.adj == r₂.adj && r₁.adj == [("a".toList, ["c".toList]), ("b".toList, ["c".toList]), ("c".toList, [])]
+        && getAssoc r₁.deps "c".toList == ["a".toList, "b".toList]
+        && getAssoc r₂.deps "c".toList == ["b".toList, "a".toList]
+    | _, _ => false) = true := by decide +kernel
+
+/-! non-vacuity of the sorting theorems -/
 example : sortDedup ["SIZE".toList, "ITER".toList, "SIZE".toList] = ["ITER".toList, "SIZE".toList] ∧
     sortDedup ["ITER".toList, "SIZE".toList] = ["ITER".toList, "SIZE".toList] := by decide
 
